@@ -191,7 +191,10 @@ func (w *World) Settle() []*Arrival {
 		if a.B != b.B {
 			return a.B < b.B
 		}
-		return a.C < b.C
+		if a.C != b.C {
+			return a.C < b.C
+		}
+		return string(a.Blob) < string(b.Blob)
 	})
 	for _, a := range got {
 		id, ok := w.actors[a.gid]
